@@ -1876,7 +1876,7 @@ C13_POOLS = [
         "params": [],
         "exprs": {
             "olin": ["+", ["+", ["*", ["num", 2.0], ["var", "x"]], ["var", "y"]], ["num", 5.0]],
-            "olin2": ["-", ["*", ["num", 3.0], ["var", "y"]], ["var", "x"]],
+            "olin2": ["-", ["*", ["num", 3.0], ["var", "y"]], ["var", "w"]],  # other variable set: x leaves, w enters
             "oquad": ["+", ["**", ["-", ["var", "x"], ["num", 1.0]], ["num", 2]], ["**", ["-", ["var", "y"], ["num", 2.5]], ["num", 2]]],
         },
         "cons": {
@@ -1895,7 +1895,7 @@ C13_POOLS = [
         "params": [],
         "exprs": {
             "olin": ["lincomb", [1.0, 2.0, 3.0], ["vec", "v"]],
-            "olin2": ["-", ["vsum", ["vec", "v"]], ["num", 2.0]],
+            "olin2": ["+", ["+", ["vel", "v", 1], ["vel", "v", 2]], ["var", "w"]],  # v[0] leaves, w enters
             "oquad": ["+", ["dot", ["vec", "v"], ["vec", "v"]], ["neg", ["vel", "v", 0]]],
         },
         "cons": {
